@@ -129,7 +129,7 @@ func init() {
 		},
 		Assumptions: []string{
 			"mock genesis, live-network regime; lock periods shrunk (stake unit 20 s, fusion expiration 2 momentums, sentinel lock/revoke windows 30 s / 20 s) — the release logic is parametric in these constants",
-			"families covered: stake, plasma fusions, sentinel collateral and QSR deposit, pillar QSR deposit, pillar collateral (Register / Revoke / UpdatePillar on genesis pillars and a newly registered one; pillar windows 30 s / 20 s), HTLC (spork created and activated by the base prefix, SporkMinHeightDelay shrunk to 2); liquidity stake and bridge unwrap are not covered by this check",
+			"families covered: stake, plasma fusions, sentinel collateral and QSR deposit, pillar QSR deposit, pillar collateral (Register / Revoke / UpdatePillar on genesis pillars and a newly registered one; pillar windows 30 s / 20 s), HTLC (spork created and activated by the base prefix, SporkMinHeightDelay shrunk to 2), liquidity stakes and bridge unwrap requests (spork, bridge and liquidity contract initialised by the base prefix with administrator delays shrunk to 2 / 1 momentums; non-owned ZNN pair with redeem delay 2; TSS key of the repository's tests)",
 			"liabilities are recomputed from the ledger alone by replaying each contract's receive blocks (audit.go)",
 		},
 		Run: run,
@@ -228,7 +228,7 @@ func families(thorough bool) []family {
 	pillar.bases = append(pillar.bases, hx.Base{Name: "pillar-qsr/deposited", Prefix: []ops.Op{
 		{K: "Call", S: "pillar-deposit-qsr", A: 1, V: 10}, M, M,
 	}})
-	return []family{stake, plasma, sent, pillar, coll, htlcFamily()}
+	return append([]family{stake, plasma, sent, pillar, coll, htlcFamily()}, bridgeFamilies()...)
 }
 
 func knownAddrs() []types.Address {
@@ -277,6 +277,10 @@ func check(r *xs.Result, s *hx.Step) bool {
 				a.bad("htlc:balance-differs-from-liabilities", "htlc contract holds %v of %v but owes %v", b, z, l)
 			}
 		}
+		for z, l := range a.liquidity() {
+			rows = append(rows, row{"liquidity/" + z.String(), l, l, bal(types.LiquidityContract, z)})
+		}
+		a.bridge()
 		rep := map[string]interface{}{"base": s.Base, "history": s.History}
 		for _, p := range a.problems {
 			r.Violate("C10:"+p.key, hx.Describe(s)+" ["+view+"]: "+p.msg, rep)
@@ -303,6 +307,7 @@ func check(r *xs.Result, s *hx.Step) bool {
 func run(c *xs.Ctx, r *xs.Result) {
 	shrinkLocks()
 	initHtlcOps()
+	initBridgeOps()
 	if c.Replay != nil {
 		var rep struct {
 			Base    string   `json:"base"`
@@ -339,7 +344,7 @@ func run(c *xs.Ctx, r *xs.Result) {
 		depth = 4
 	}
 	for _, f := range families(c.Thorough()) {
-		e := &hx.Explorer{Ctx: c, Res: r, Bases: f.bases, Alphabet: f.alpha, Depth: depth,
+		e := &hx.Explorer{Ctx: c, Res: r, Bases: f.bases, Alphabet: f.alpha, Depth: depth, SnapshotBases: true,
 			OnBase: func(b hx.Base, n *vnode.Node) {
 				check(r, &hx.Step{Base: b.Name, Node: n, Op: ops.Op{K: "base"}})
 			},
